@@ -222,6 +222,27 @@ func cmdCheck(repo, root string, args []string) int {
 		obls = append(obls, rep.Obls...)
 		vac = append(vac, rep.Vacuity...)
 	}
+	if rr := w.VerifyRecDefs(prop); len(rr.Obls)+len(rr.Errors) > 0 {
+		// the inductive properties of recursive spec functions are premises of whatever uses them
+		usesRec := false
+		for _, o := range obls {
+			for _, f := range append(o.Facts, o.Goal) {
+				if f != nil && strings.Contains(f.String(), "rec.") {
+					usesRec = true
+					break
+				}
+			}
+			if usesRec {
+				break
+			}
+		}
+		if usesRec {
+			obls = append(obls, rr.Obls...)
+			for _, e := range rr.Errors {
+				genErrs = append(genErrs, e)
+			}
+		}
+	}
 	if prop == "C08" {
 		obls = append(obls, w.gsm7TableObligations(root)...)
 	}
